@@ -20,6 +20,8 @@ pub mod model {
     pub const CAP: usize = 96;
     pub static mut IN: [u8; CAP] = [0; CAP];
     pub static mut IN_LEN: usize = 0;
+    /// order-sensitive running checksum of everything appended (for inputs longer than CAP)
+    pub static mut SUM: u64 = 0;
     pub static mut CALLS: usize = 0;
     pub static mut OUT: [u8; 32] = [0; 32];
 
@@ -30,6 +32,7 @@ pub mod model {
                 if IN_LEN < CAP {
                     IN[IN_LEN] = bytes[i];
                 }
+                SUM = SUM.wrapping_mul(31).wrapping_add(bytes[i] as u64);
                 IN_LEN += 1;
                 i += 1;
             }
@@ -64,6 +67,7 @@ pub mod model {
 fn rec_reset() {
     unsafe {
         model::IN_LEN = 0;
+        model::SUM = 0;
         model::CALLS = 0;
     }
 }
@@ -141,4 +145,37 @@ pub fn k_c15_sha3_hash_elements() {
     want[16..].copy_from_slice(&e[1].as_int().to_le_bytes());
     vcheck!("C15.sha3.hash_elements.f128.raw_memory_is_canonical", input_is(&want) && one_call_with_output(&d));
     vreach!("C15.sha3.hash_elements.reach");
+}
+
+// hash_elements on a list longer than any internal batch of the implementation (65 elements, one more than a
+// power of two): the bytes handed to the primitive are still exactly the concatenated canonical encodings. The
+// elements are concrete (distinct Montgomery residues), so this is a closed obligation: length and an
+// order-sensitive checksum of the recorded input against the same quantities of the expected encoding.
+//# harness: fn=Sha3_256::hash_elements (f64, 65 elements); label=closed(65 fixed distinct f64 elements; input length and order-sensitive checksum); tier=quick; replay=no; timeout=900
+#[cfg_attr(kani, kani::proof)]
+#[cfg_attr(kani, kani::unwind(600))]
+pub fn k_c15_sha3_hash_elements_long() {
+    use math::{FieldElement, StarkField};
+    rec_reset();
+    let mut e = [g64::BaseElement::ZERO; 65];
+    let mut i = 0;
+    while i < 65 {
+        e[i] = g64::BaseElement::from_mont(0x0123_4567_89ab_cdef_u64.wrapping_mul(i as u64 + 1) >> 1);
+        i += 1;
+    }
+    let d = Sha3_256::<g64::BaseElement>::hash_elements(&e);
+    let mut sum = 0u64;
+    let mut i = 0;
+    while i < 65 {
+        let b = e[i].as_int().to_le_bytes();
+        let mut j = 0;
+        while j < 8 {
+            sum = sum.wrapping_mul(31).wrapping_add(b[j] as u64);
+            j += 1;
+        }
+        i += 1;
+    }
+    vcheck!("C15.sha3.hash_elements.f64.long_list_layout",
+        unsafe { model::IN_LEN == 65 * 8 && model::SUM == sum } && one_call_with_output(&d));
+    vreach!("C15.sha3.hash_elements_long.reach");
 }
